@@ -115,6 +115,21 @@ CHECKS = {
              "observed as a 4 s stall of a child process. Trusted: TLC, the harness' tree walk.",
         technique="TLA+ trace validation of exhaustive parser runs (TLC)",
         ref="DESIGN.md section 4 C23"),
+    "C24": dict(
+        engine="ExprGrammar",
+        category="model_checking",
+        text="ExprGrammar.tla defines abstract expression trees, the precedence table and a printer "
+             "with minimal (and with redundant) parentheses; TLC checks the printer injective on "
+             "every family and emits the families (all atoms x every prefix / postfix / binary "
+             "operator, all 18x18 binary-operator pairs in both nestings, 14 operand shapes in "
+             "every operator position, depth-3 shapes in the thorough tier). Every text is parsed "
+             "by the real parser (REPL entry) and the tree read back through the ast accessors must "
+             "equal the abstract tree, with zero syntax errors.",
+        note="The property does not order prefix against postfix operators, so those combinations "
+             "are always printed with parentheses. Trusted: TLC, the harness' ast -> JSON walk "
+             "(BinaryExpr::lhs/rhs/op etc.).",
+        technique="TLA+ grammar model (TLC enumeration) + spec-to-implementation replay",
+        ref="DESIGN.md section 4 C24"),
     "C25": dict(
         engine="LineCol",
         category="model_checking",
